@@ -22,10 +22,14 @@ func (e *Eval) bindParams(env *Env, fr *Frame) {
 	for n, tv := range fr.extraBinds {
 		env.vars[n] = tv
 	}
+	if fr.fn.Signature.Recv() != nil && len(fr.params) > 0 {
+		env.bind("self", fr.params[0], fr.fn.Params[0].Type())
+	}
 	for i, p := range fr.fn.Params {
 		if i < len(fr.params) {
 			env.bind(p.Name(), fr.params[i], p.Type())
 			env.bind(p.Name()+"0", fr.params[i], p.Type()) // entry value (parameters are mutable)
+			env.bind(fmt.Sprintf("arg%d", i), fr.params[i], p.Type())
 		}
 	}
 }
